@@ -255,10 +255,10 @@ theorem wstep_inv (hc : Canonical spec cfg.prog) (h : Inv cfg spec s) (hi : s.wo
     · split at hs <;> simp at hs
       rename_i b d q hq; subst hs
       have hbd := h.qmem b d (by rw [hq]; simp)
-      have key : ∀ x, refs { s.setW i { w with pc := rest, msg := some b, owns := true, cur := some d, dec := none, mar := .none } with udpq := q } x ≤ refs s x := by
+      have key : ∀ x, refs { s.setW i { w with pc := rest, msg := some b, owns := true, cur := some d, dec := none, mar := .none, nDec := 0, nCnt := 0, nPub := 0 } with udpq := q } x ≤ refs s x := by
         intro x
-        have h1 := wsum_set hi { w with pc := rest, msg := some b, owns := true, cur := some d, dec := none, mar := .none } x
-        have h3 : wref (K := K) { w with pc := rest, msg := some b, owns := true, cur := some d, dec := none, mar := .none } x = if b = x then 1 else 0 := by
+        have h1 := wsum_set hi { w with pc := rest, msg := some b, owns := true, cur := some d, dec := none, mar := .none, nDec := 0, nCnt := 0, nPub := 0 } x
+        have h3 : wref (K := K) { w with pc := rest, msg := some b, owns := true, cur := some d, dec := none, mar := .none, nDec := 0, nCnt := 0, nPub := 0 } x = if b = x then 1 else 0 := by
           simp only [wref, true_and, Option.some.injEq]
         simp only [refs, State.setW, hq, qcount_cons]; omega
       refine inv_worker_step h hi rfl (fun x => Nat.le_trans (key x) (h.uniq x))
@@ -444,6 +444,7 @@ theorem wstep_inv (hc : Canonical spec cfg.prog) (h : Inv cfg spec s) (hi : s.wo
       cur_recv := fun d' hd' => hl _ (hsim.cur_recv d' hd')
       buf_ok := fun b' d' ho hb' hd' => hsim.buf_ok b' d' ho hb' hd'
       decoded := fun _ => ⟨d, s.cache, hd, rfl, List.mem_cons_self⟩
+      cnt_dec := by have := hsim.cnt_dec; simp [hnd] at this; simp [this]
       kmsg := fun x hx => by have := (hsim.kmsg x hx).1; rw [hnd] at this; simp at this
       kdata := fun x hx => by have := (hsim.kdata x hx).1; rw [hnd] at this; simp at this
       marsh := fun hm => by have := (hsim.marsh hm).1; rw [hnd] at this; simp at this
@@ -495,7 +496,8 @@ theorem wstep_inv (hc : Canonical spec cfg.prog) (h : Inv cfg spec s) (hi : s.wo
     refine inv_local h hi _ _ rfl ⟨rfl, rfl, rfl, rfl, rfl, rfl, rfl, rfl⟩ (fun x => Nat.le_refl _) hl ?_
       (fun _ _ hp => by simpa using hp) (fun _ _ hp => by simpa using hp)
     refine .inr ⟨_, ?_, hchk⟩
-    have hsim' : Sim s { w with pc := rest } { a with counted := true } := { hsim with }
+    have hsim' : Sim s { w with pc := rest, nCnt := w.nCnt + 1 } { a with counted := true } :=
+      { hsim with cnt_cnt := by have := hsim.cnt_cnt; simp at hoc; simp [hoc.2] at this; simp [this] }
     exact hsim'.frame (fun _ _ _ => rfl) hl
   · -- marshal
     rename_i own rest hpc
@@ -568,12 +570,13 @@ theorem wstep_inv (hc : Canonical spec cfg.prog) (h : Inv cfg spec s) (hi : s.wo
     split at hs <;> try (simp at hs; done)
     rename_i d p hd hp
     obtain ⟨hsol, _⟩ := hsim.publish_info hky hkm hd hp
-    have hsim' : Sim s { w with pc := rest } { a with pubd := true } := { hsim with }
-    have hwr : ∀ x, wref (K := K) { w with pc := rest } x = wref w x := fun x => rfl
+    have hsim' : Sim s { w with pc := rest, nPub := w.nPub + 1 } { a with pubd := true } :=
+      { hsim with cnt_pub := by have := hsim.cnt_pub; simp [hnp] at this; simp [this] }
+    have hwr : ∀ x, wref (K := K) { w with pc := rest, nPub := w.nPub + 1 } x = wref w x := fun x => rfl
     have key : ∀ s'' : State K, s''.pool = s.pool → s''.rx = s.rx → s''.udpq = s.udpq → s''.mirq = s.mirq →
-        s''.workers = s.workers.set i { w with pc := rest } → ∀ x, refs s'' x = refs s x := by
+        s''.workers = s.workers.set i { w with pc := rest, nPub := w.nPub + 1 } → ∀ x, refs s'' x = refs s x := by
       intro s'' e1 e2 e3 e4 e5 x
-      have h1 := wsum_set hi { w with pc := rest } x
+      have h1 := wsum_set hi { w with pc := rest, nPub := w.nPub + 1 } x
       simp only [refs, e1, e2, e3, e4, e5, hwr] at *; omega
     simp at hs
     split at hs
@@ -614,12 +617,13 @@ theorem wstep_inv (hc : Canonical spec cfg.prog) (h : Inv cfg spec s) (hi : s.wo
     rename_i d p hd hp
     obtain ⟨hsol, hval⟩ := hsim.publish_info hky hkm hd hp
     have hmar := hval hnb
-    have hsim' : Sim s { w with pc := rest } { a with pubd := true } := { hsim with }
-    have hwr : ∀ x, wref (K := K) { w with pc := rest } x = wref w x := fun x => rfl
+    have hsim' : Sim s { w with pc := rest, nPub := w.nPub + 1 } { a with pubd := true } :=
+      { hsim with cnt_pub := by have := hsim.cnt_pub; simp [hnp] at this; simp [this] }
+    have hwr : ∀ x, wref (K := K) { w with pc := rest, nPub := w.nPub + 1 } x = wref w x := fun x => rfl
     have key : ∀ s'' : State K, s''.pool = s.pool → s''.rx = s.rx → s''.udpq = s.udpq → s''.mirq = s.mirq →
-        s''.workers = s.workers.set i { w with pc := rest } → ∀ x, refs s'' x = refs s x := by
+        s''.workers = s.workers.set i { w with pc := rest, nPub := w.nPub + 1 } → ∀ x, refs s'' x = refs s x := by
       intro s'' e1 e2 e3 e4 e5 x
-      have h1 := wsum_set hi { w with pc := rest } x
+      have h1 := wsum_set hi { w with pc := rest, nPub := w.nPub + 1 } x
       simp only [refs, e1, e2, e3, e4, e5, hwr] at *; omega
     simp at hs
     split at hs
